@@ -190,6 +190,47 @@ fn lit(x: i64) -> String {
     if x == i64::MIN { "(-9223372036854775807 - 1)".into() } else if x < 0 { format!("({x})") } else { format!("{x}") }
 }
 
+/// read-only paths: for each (read-only path, recursive, program, event) the program must either be
+/// rejected at compile time or leave the value at the read-only path unchanged.
+fn read_only() -> usize {
+    use vrl::compiler::{compile_with_external, state::ExternalEnv, CompileConfig};
+    use vrl::path::OwnedTargetPath;
+    let ev = |json: &str| -> Value { serde_json::from_str::<serde_json::Value>(json).map(Value::from).unwrap() };
+    let cases: Vec<(OwnedValuePath, bool, &str, &str)> = vec![
+        (OwnedValuePath::from(vec![OwnedSegment::field("a"), OwnedSegment::index(0)]), false, ".a[-1] = 9", r#"{"a":[1]}"#),
+        (OwnedValuePath::from(vec![OwnedSegment::field("a"), OwnedSegment::index(0)]), true, ".a[-1] = 9", r#"{"a":[1]}"#),
+        (OwnedValuePath::from(vec![OwnedSegment::field("a"), OwnedSegment::index(0)]), false, ".a[-3] = 9", r#"{"a":[1]}"#),
+        (OwnedValuePath::from(vec![OwnedSegment::field("a"), OwnedSegment::index(-1)]), false, ".a[0] = 9", r#"{"a":[1]}"#),
+        (OwnedValuePath::from(vec![OwnedSegment::field("a"), OwnedSegment::index(-1)]), false, ".a[3] = 9", r#"{"a":[1]}"#),
+        (OwnedValuePath::from(vec![OwnedSegment::field("a"), OwnedSegment::index(0)]), false, "del(.a[-1])", r#"{"a":[1]}"#),
+        (OwnedValuePath::from(vec![OwnedSegment::field("a"), OwnedSegment::index(0)]), false, ".a[1] = 9", r#"{"a":[1]}"#),
+        (OwnedValuePath::from(vec![OwnedSegment::field("a"), OwnedSegment::index(0)]), false, ".a[0] = 9", r#"{"a":[1]}"#),
+        (OwnedValuePath::from(vec![OwnedSegment::field("a")]), true, ".a.b = 9", r#"{"a":{"b":1}}"#),
+        (OwnedValuePath::from(vec![OwnedSegment::field("a"), OwnedSegment::field("b")]), false, ".a = 9", r#"{"a":{"b":1}}"#),
+        (OwnedValuePath::from(vec![OwnedSegment::field("a"), OwnedSegment::field("b")]), false, "del(.a)", r#"{"a":{"b":1}}"#),
+        (OwnedValuePath::from(vec![OwnedSegment::field("a"), OwnedSegment::field("b")]), false, ".a.c = 9", r#"{"a":{"b":1}}"#),
+    ];
+    let mut bad = 0;
+    for (ro, recursive, src, event) in cases {
+        let mut config = CompileConfig::default();
+        config.set_read_only_path(OwnedTargetPath::event(ro.clone()), recursive);
+        let fns = vrl::stdlib::all();
+        let case = format!("read-only {}{} program `{}` event {}", ro, if recursive { " (recursive)" } else { "" }, src, event);
+        let Ok(res) = compile_with_external(src, &fns, &ExternalEnv::default(), config) else { continue };
+        let before = ev(event);
+        let want = before.get(&ro).cloned();
+        let mut target = TargetValue { value: before, metadata: Value::Object(BTreeMap::new()), secrets: Secrets::default() };
+        let mut rt = Runtime::default();
+        let _ = rt.resolve(&mut target, &res.program, &TimeZone::default());
+        let got = target.value.get(&ro).cloned();
+        if got != want {
+            bad += 1;
+            fail("read_only", &case, &format!("value at read-only path stays {:?}", want), &format!("{:?} (event now {})", got, target.value));
+        }
+    }
+    bad
+}
+
 fn main() {
     let unit = std::env::args().nth(1).unwrap_or_default();
     let bad = match unit.as_str() {
@@ -197,6 +238,7 @@ fn main() {
         "closure_scope" => closure_scope(),
         "ctl_programs" => ctl_programs(),
         "format_int" => format_int(),
+        "read_only" => read_only(),
         _ => {
             eprintln!("unknown witness unit {unit}");
             std::process::exit(2);
